@@ -33,7 +33,9 @@ ConsAtom(s, cx) ==
       c2 == a[1 + Pick(s, 3, Len(a))]
   IN CASE k \in 0..4 -> Chr(c1)
        [] k = 5 -> Dot
-       [] k = 6 -> Rng(IF c1 <= c2 THEN c1 ELSE c2, IF c1 <= c2 THEN c2 ELSE c1)
+       \* (one range in eight is written the wrong way round, [z-a]: it is accepted by the front end and matches nothing)
+       [] k = 6 -> IF c1 # c2 /\ Pick(s, 10, 8) = 0 THEN Rng(IF c1 <= c2 THEN c2 ELSE c1, IF c1 <= c2 THEN c1 ELSE c2)
+                   ELSE Rng(IF c1 <= c2 THEN c1 ELSE c2, IF c1 <= c2 THEN c2 ELSE c1)
        [] k = 7 -> IF cx.sugar THEN IChr(c1) ELSE Chr(c1)
        [] k = 8 -> IF cx.sugar THEN Str(<<c1, c2>>, Pick(s, 4, 3) = 0) ELSE SeqE(<<Chr(c1), Chr(c2)>>)
        [] k = 9 -> IF cx.sugar
@@ -325,12 +327,24 @@ DiagE(s, d, cx) ==
          [] k = 19 -> LET nul == CASE Pick(s, 22, 3) = 0 -> Opt(sub(1)) [] Pick(s, 22, 3) = 1 -> Star(ConsAtom(H(s, 23), cx)) [] OTHER -> sub(1)
                           alt == IF Pick(s, 24, 2) = 0 THEN AltE(<<nul, ConsAtom(H(s, 25), cx)>>) ELSE AltE(<<ConsAtom(H(s, 25), cx), nul>>)
                       IN SeqE(<<alt, Ref(RuleName(1 + Pick(s, 26, cx.n)))>>)
+\* rule names other than A..F: names that look like the generator's own (the pseudo-rules of actions are called
+\* Action0, Action1, ...; the capture token PegText) must be treated like any other name
+OddNames == [A |-> "Action", B |-> "ActionList", C |-> "Actions", D |-> "Reaction", E |-> "PegTexts", F |-> "Rules"]
+RECURSIVE RenameE(_, _)
+RenameE(e, f) ==
+  CASE e.op = "ref" -> IF e.r \in DOMAIN f THEN [e EXCEPT !.r = f[e.r]] ELSE e
+    [] e.op \in UnaryOps -> [e EXCEPT !.a = RenameE(e.a, f)]
+    [] e.op \in ListOps -> [e EXCEPT !.es = [k \in 1..Len(e.es) |-> RenameE(e.es[k], f)]]
+    [] OTHER -> e
+RenameG(G, f) == [rules |-> [i \in 1..Len(G.rules) |-> [name |-> IF G.rules[i].name \in DOMAIN f THEN f[G.rules[i].name] ELSE G.rules[i].name,
+                                                          body |-> RenameE(G.rules[i].body, f)]]]
 GenDiag(s, cx0) ==
   LET n == 1 + Pick(s, 31, 5)
       dup == Pick(s, 32, 6) = 0 /\ n >= 3     \* the last rule repeats the name of the second
       rules == [i \in 1..n |-> [name |-> IF dup /\ i = n THEN RuleName(2) ELSE RuleName(i),
                                 body |-> DiagE(H(s, 40 + i), 1 + Pick(s, 50 + i, 2), [cx0 EXCEPT !.self = i, !.n = n])]]
-  IN [rules |-> rules]
+      G == [rules |-> rules]
+  IN IF Pick(s, 33, 4) = 0 THEN RenameG(G, OddNames) ELSE G
 
 (* ---------- the "stress" family: code generation only (C08), every option set ------------- *)
 Num(i) == ToString(i)
@@ -474,6 +488,12 @@ SwitchPinned2 == NumberActions([rules |-> <<[name |-> "A", body |-> AltE(<<Chr(9
 SwitchPinned3 == NumberActions([rules |-> <<[name |-> "A", body |-> AltE(<<SeqE(<<Chr(97), Ref("X")>>), Chr(98)>>)],
                                             [name |-> "X", body |-> SeqE(<<Ref("A"), Chr(99), Ref("Z")>>)],
                                             [name |-> "Z", body |-> AltE(<<Rng(100, 101), SeqE(<<Ref("X"), Chr(97)>>), Chr(102)>>)]>>])
+\* a fixed line-oriented grammar of the reuse family: most inputs fail on a line other than the first, so the
+\* histories report line/column positions of one input after another on the same instance
+LinesGrammar == NumberActions([rules |-> <<[name |-> "A", body |-> SeqE(<<Plus(Ref("L")), Not(Dot)>>)],
+                                           [name |-> "L", body |-> SeqE(<<Cap(Star(Rng(97, 98))), Act(0), Chr(10)>>)]>>])
+LinesInputs == << <<97, 10, 98, 10, 100>>, <<10, 10, 100>>, <<97, 98, 10, 97, 100, 10>>, <<100>>, <<97, 10, 98, 98, 10, 97, 97, 100>>,
+                  <<98, 10, 10, 10, 100, 10>>, <<97, 10>>, <<97, 100>> >>
 \* a fixed scenario that reproduces known finding F12-2 (more than 65535 tokens under uint16) in every run of the reuse family
 F122Grammar == NumberActions([rules |-> <<[name |-> "A", body |-> SeqE(<<Star(AltE(<<Ref("B"), Dot>>)), Not(Dot)>>)],
                                           [name |-> "B", body |-> Ref("C")],
@@ -519,8 +539,8 @@ Fam ==
           depth |-> 3, optsets |-> Plain4, exhaust |-> 3, alphaIn |-> ABC, extraAlpha |-> <<97, 98, 99, 65, 100>>, nextra |-> 10,
           collect |-> [toks |-> TRUE, exec |-> FALSE, ast |-> FALSE, msg |-> FALSE], entries |-> TRUE, memoOff |-> TRUE, act |-> "full"]
     [] FAMILY = "act" ->    \* C04 C05 C11: actions and captures everywhere; multi-line, multi-byte inputs
-         [cx |-> [alpha |-> <<97, 98, 10, 233, 27721>>, acts |-> TRUE, caps |-> TRUE, preds |-> FALSE, sugar |-> FALSE, capnull |-> FALSE, maxrules |-> 3, self |-> 1, n |-> 1],
-          depth |-> 3, optsets |-> <<"">>, exhaust |-> 2, alphaIn |-> <<97, 98, 10, 233, 27721>>, extraAlpha |-> <<97, 98, 10, 233, 27721, 128512>>, nextra |-> 30,
+         [cx |-> [alpha |-> <<97, 98, 10, 233, 27721, 37>>, acts |-> TRUE, caps |-> TRUE, preds |-> FALSE, sugar |-> FALSE, capnull |-> FALSE, maxrules |-> 3, self |-> 1, n |-> 1],
+          depth |-> 3, optsets |-> <<"">>, exhaust |-> 2, alphaIn |-> <<97, 98, 10, 233, 27721>>, extraAlpha |-> <<97, 98, 10, 233, 27721, 128512, 37, 37>>, nextra |-> 30,
           collect |-> [toks |-> TRUE, exec |-> TRUE, ast |-> TRUE, msg |-> TRUE], entries |-> FALSE, memoOff |-> FALSE, act |-> "full"]
     [] FAMILY = "lex" ->    \* C01 C02 C03: the spelling of literals and classes, end to end
          [cx |-> [alpha |-> LexAlpha, acts |-> FALSE, caps |-> TRUE, preds |-> FALSE, sugar |-> TRUE, capnull |-> FALSE, maxrules |-> 1, self |-> 1, n |-> 1],
@@ -540,11 +560,12 @@ Fam ==
           collect |-> [toks |-> FALSE, exec |-> FALSE, ast |-> FALSE, msg |-> FALSE], entries |-> FALSE, memoOff |-> FALSE, act |-> "full"]
     [] FAMILY = "noast" ->  \* C07
          [cx |-> [alpha |-> ABC, acts |-> TRUE, caps |-> TRUE, preds |-> TRUE, sugar |-> FALSE, capnull |-> TRUE, maxrules |-> 3, self |-> 1, n |-> 1],
-          depth |-> 3, optsets |-> All8, exhaust |-> 3, alphaIn |-> ABC, extraAlpha |-> <<97, 98, 99, 100>>, nextra |-> 10,
+          depth |-> 3, optsets |-> All8, exhaust |-> 3, alphaIn |-> ABC, extraAlpha |-> <<97, 98, 99, 100, 233, 27721>>, nextra |-> 16,
           collect |-> [toks |-> TRUE, exec |-> FALSE, ast |-> FALSE, msg |-> FALSE], entries |-> FALSE, memoOff |-> FALSE, act |-> "text"]
     [] FAMILY = "reuse" ->  \* C12: histories on one long-lived instance x Size x U
-         [cx |-> [alpha |-> ABC, acts |-> TRUE, caps |-> TRUE, preds |-> FALSE, sugar |-> FALSE, capnull |-> FALSE, maxrules |-> 3, self |-> 1, n |-> 1],
-          depth |-> 3, optsets |-> <<"", "is", "n">>, exhaust |-> 2, alphaIn |-> ABC, extraAlpha |-> <<97, 98, 99, 100>>, nextra |-> 12,
+         \* (a, b and the newline: error positions are lines and columns)
+         [cx |-> [alpha |-> <<97, 98, 10>>, acts |-> TRUE, caps |-> TRUE, preds |-> FALSE, sugar |-> FALSE, capnull |-> FALSE, maxrules |-> 3, self |-> 1, n |-> 1],
+          depth |-> 3, optsets |-> <<"", "is", "n">>, exhaust |-> 2, alphaIn |-> <<97, 98, 10>>, extraAlpha |-> <<97, 98, 10, 100>>, nextra |-> 16,
           collect |-> [toks |-> TRUE, exec |-> TRUE, ast |-> TRUE, msg |-> TRUE], entries |-> FALSE, memoOff |-> FALSE, act |-> "text"]
     [] FAMILY = "inst" ->   \* C14: interleaved and concurrent instances
          [cx |-> [alpha |-> ABC, acts |-> TRUE, caps |-> TRUE, preds |-> FALSE, sugar |-> FALSE, capnull |-> TRUE, maxrules |-> 3, self |-> 1, n |-> 1],
@@ -565,7 +586,8 @@ Inputs(s, G) ==
       sent == [j \in 1..NSENT |-> Trunc(SentenceInput(B, G.rules[1].name, H(s, 500 + j), Fam.extraAlpha), 12)] \o
               \* the two pinned deep grammars of the act family get inputs that nest beyond 64 levels
               (IF G = DeepGrammar1 THEN <<[j \in 1..70 |-> 97], [j \in 1..90 |-> IF j % 3 = 0 THEN 98 ELSE 97]>>
-               ELSE IF G = DeepGrammar2 THEN <<[j \in 1..141 |-> IF j <= 70 THEN 40 ELSE IF j = 71 THEN 233 ELSE 41]>> ELSE <<>>)
+               ELSE IF G = DeepGrammar2 THEN <<[j \in 1..141 |-> IF j <= 70 THEN 40 ELSE IF j = 71 THEN 233 ELSE 41]>>
+               ELSE IF G = LinesGrammar THEN LinesInputs ELSE <<>>)
       all == base \o extra \o sent
       \* long inputs (reuse family): a sentence of the grammar repeated until about 9 000 and 20 000 runes
       nz == SelectSeq(sent, LAMBDA x : Len(x) > 0)
@@ -598,6 +620,7 @@ Plan(G) ==
   (IF Fam.entries THEN [k \in 1..(Len(G.rules) - 1) |-> PlanEntry(G.rules[k + 1].name, TRUE, 0, "uint32", TRUE)] ELSE <<>>)
 
 Candidate(n) == IF FAMILY = "reuse" /\ n = 1 THEN F122Grammar
+                ELSE IF FAMILY = "reuse" /\ n = 2 THEN LinesGrammar
                 ELSE IF FAMILY = "switch" /\ n = 1 THEN SwitchPinned1
                 ELSE IF FAMILY = "switch" /\ n = 2 THEN SwitchPinned2
                 ELSE IF FAMILY = "switch" /\ n = 3 THEN SwitchPinned3
@@ -619,6 +642,8 @@ Scenario(n) ==
    hist |-> IF FAMILY = "diag" THEN <<>> ELSE Hists(H(SEED, n + 29), Len(Inputs(H(SEED, n + 17), G)) - (IF FAMILY = "reuse" THEN 2 ELSE 0)),
    inter |-> IF FAMILY = "diag" THEN <<>> ELSE Inters(H(SEED, n + 31), Len(Inputs(H(SEED, n + 17), G)) - (IF FAMILY = "reuse" THEN 2 ELSE 0)),
    conc |-> IF FAMILY = "inst" /\ "GEN_CONC" \in DOMAIN IOEnv THEN atoi(IOEnv.GEN_CONC) ELSE 0,
+   \* Parse called twice on one instance without Reset (PegRuntime!ParseAgain): Parse(); Parse()  and  Parse(alt); Parse()
+   again |-> [on |-> FAMILY \in {"act", "noast", "reuse", "core", "memo"}, alt |-> G.rules[Len(G.rules)].name],
    collect |-> [toks |-> Fam.collect.toks, exec |-> Fam.collect.exec, ast |-> Fam.collect.ast, msg |-> Fam.collect.msg,
                 evs |-> ("GEN_EVS" \in DOMAIN IOEnv /\ IOEnv.GEN_EVS = "1")], allu |-> FAMILY = "reuse", norun |-> FAMILY = "diag", actstyle |-> Style(G).act]
 
